@@ -188,6 +188,19 @@ CHECKS["C11"] = dict(
     technique="Coq proof (two collection passes over a nested element tree proved equal to the spec-level listings under no-duplicate keys; string-level name resolution via split/join lemmas) + vm_compute correspondence on generated and served DMRs",
     design="7/C11")
 
+CHECKS["C06"] = dict(
+    text="Machine-checked proof (Coq): on facts re-extracted from the source on every run (each data-bearing response renders "
+         "dds(self.dataset) first and its own part from the same dataset; BaseHandler.__call__ builds one dataset per request; a DAS "
+         "request drops the query) the DDS, data and ASCII responses of one query carry the same DDS text and fail together, and the DAS "
+         "is independent of the constraint; the ASCII layout prints, for every shape, each value of the flat data exactly once, in "
+         "order, next to the multi-index whose C-order offset is its position; one line per record for sequences. pydap's ASCII body is "
+         "compared with the layout model on generated datasets x constraints; DDS-prefix, reference XDR data, an independent ASCII reader "
+         "and DAS independence are checked on the implementation.",
+    note=TB + "Facts are syntactic (tools/gen_facts.py). Number tokens ('%.6g') come from a reference encoder; nested-sequence ASCII layout "
+              "is not modelled.",
+    technique="Coq proof (premises discharged on facts regenerated from the source; mixed-radix index theorem for ndindex by induction over the shape) + vm_compute correspondence of whole ASCII bodies",
+    design="7/C06")
+
 NOT_YET = {
 }
 
